@@ -25,15 +25,17 @@ CHECKS = {
     'C16': dict(
         level='proof',
         technique='deductive verification: per-operation contracts against an abstract view (Ent / reverse index / CtxInv), VCs discharged by z3; history quantifier by induction over operations; bounded random histories as cross-check',
-        text=("31 functions of src/ir/context.py (+ utils.prefix_lst) are proved against an abstract scoped-map view: every "
+        text=("33 functions of src/ir/context.py (+ utils.prefix_lst) are proved against an abstract scoped-map view: every "
               "mutator transforms the whole view exactly as specified (touched entry, all other (namespace, kind) entries "
               "unchanged, reverse index, representation invariant, frame on other Context objects); current-namespace "
               "queries are proved equal to the namespace's entries including insertion order; enclosing-scope queries equal "
               "the fold of dict-update along the path (inner shadows outer); name lookup returns the innermost enclosing "
               "namespace with a real declaration. Because each operation is proved for all states satisfying the "
-              "invariant, the statement holds after any history. The global-query worklist (_get_declarations_glob) is "
-              "only assumed (trusted contract) and exercised by the bounded stand-in; it is not counted as proved."),
+              "invariant, the statement holds after any history. The two worklist traversals (_get_declarations_glob, "
+              "get_namespaces_decls) are proved sound and complete w.r.t. least-fixpoint namespace reachability using a ghost "
+              "set of processed namespaces (termination not proved). Random operation histories against a reference "
+              "model are run as engine cross-check only."),
         note=("trusted: pyvc encoding; abstract declaration equality; callers do not mutate returned dictionaries; "
-              "_get_declarations_glob contract assumed; get_namespaces_decls not under contract"),
+              "termination of the worklist loops; get_decl_type not under contract"),
         design='DESIGN.md section 4 (C16)'),
 }
